@@ -790,10 +790,12 @@ Section Measure.
 
   Lemma reducers_decrease e : Forall rule_decreases (reducers_of N e).
   Proof.
-    apply Forall_forall. intros r Hr.
-    apply (proj1 (Forall_forall _ _) all_rules_decrease).
-    unfold all_rules. rewrite !in_app_iff.
-    destruct e; cbn [reducers_of] in Hr; tauto.
+    destruct e; cbn [reducers_of];
+      unfold reducers_Add, reducers_Minus, reducers_Negation, reducers_Multiply,
+        reducers_Divide, reducers_Reciprocal, reducers_Power, reducers_NthPower,
+        reducers_NthRoot, reducers_Exponential, reducers_Logarithm, reducers_Cosine,
+        reducers_Sine, rule_decreases;
+      repeat (constructor; [one_rule|]); constructor.
   Qed.
 
   Lemma mu_apply_reducers e nm e' :
